@@ -1,0 +1,46 @@
+//go:build verif
+
+package morass
+
+// Contracts for the deductive verifier in /verif (govc). Only compiled with -tags verif.
+// Channels, goroutines, reflect, gob and the heap package are opaque to the verifier: what is
+// proved here are the sequential bookkeeping facts (counters, flags, error slot, file-system requests).
+
+//@ func (*Morass).setErr
+//@   property C13
+//@   requires m != nil
+//@   ensures  m._err == err
+//@   assigns  m._err
+//@ func (*Morass).err
+//@   property C13
+//@   pure
+//@   requires m != nil
+//@   ensures  result == m._err
+//@ func (*Morass).Pos
+//@   property C11
+//@   pure
+//@   requires m != nil
+//@   ensures  result == m.pos
+//@ func (*Morass).Len
+//@   property C11
+//@   pure
+//@   requires m != nil
+//@   ensures  result == m.len
+
+// Clear restores the initial abstract state of a sorter: counters zero, no files, no pending error,
+// and the next cycle is not treated as an in-memory cycle.
+//@ func (*Morass).Clear
+//@   property C11 C13
+//@   requires m != nil && m.chunkSize >= 0
+//@   requires forall i int :: 0 <= i && i < len(m.files) ==> m.files[i] != nil && m.files[i].file != nil
+//@   ensures [reset]    result == nil ==> m.pos == 0 && m.len == 0 && len(m.files) == 0 && m._err == nil
+//@   ensures [not-fast] result == nil ==> !m.fast
+//@   ensures [removed]  result == nil ==> removeCount(0) == old(removeCount(0)) + old(len(m.files))
+//@   loop 1 invariant 0 <= idx && idx <= len(m.files) && m.files == old(m.files) && removeCount(0) == old(removeCount(0)) + idx
+//@   loop 1 invariant forall i int :: 0 <= i && i < len(m.files) ==> m.files[i] != nil && m.files[i].file != nil
+
+// CleanUp asks the file system to remove the sorter's directory.
+//@ func (*Morass).CleanUp
+//@   property C13
+//@   requires m != nil
+//@   ensures  removeAllCount(0) == old(removeAllCount(0)) + 1 && lastRemoveAll(0) == m.dir
